@@ -202,17 +202,17 @@ impl Gates {
 // ---------------------------------------------------------------------------------------------
 // child process actor (a sender that can be killed)
 
-struct ProcActor {
-    child: Child,
-    stdin: ChildStdin,
-    stdout: BufReader<ChildStdout>,
-    parked: Option<String>,
-    finished: bool,
+pub struct ProcActor {
+    pub child: Child,
+    pub stdin: ChildStdin,
+    pub stdout: BufReader<ChildStdout>,
+    pub parked: Option<String>,
+    pub finished: bool,
 }
 
 impl ProcActor {
     /// Read until the child reports being parked ("P kind") or finished ("F").
-    fn settle(&mut self) -> Option<String> {
+    pub fn settle(&mut self) -> Option<String> {
         if self.finished {
             return None;
         }
@@ -242,22 +242,49 @@ impl ProcActor {
         }
     }
 
-    fn grant(&mut self) {
+    pub fn grant(&mut self) {
         self.parked = None;
         let _ = self.stdin.write_all(b"G\n");
         let _ = self.stdin.flush();
     }
 
-    fn free(&mut self) {
+    pub fn free(&mut self) {
         self.parked = None;
         let _ = self.stdin.write_all(b"FREE\n");
         let _ = self.stdin.flush();
     }
 
-    fn kill(&mut self) {
+    pub fn kill(&mut self) {
         let _ = self.child.kill();
         let _ = self.child.wait();
         self.finished = true;
+    }
+}
+
+/// Spawn `sched-child` for sender `s` and hand it `tx` (its bootstrap runs ungated).
+pub fn spawn_child_sender(s: i64, npks: &[i64], tx: IpcSender<Vec<u8>>) -> ProcActor {
+    let (server, name) = IpcOneShotServer::<IpcSender<IpcSender<Vec<u8>>>>::new().unwrap();
+    let exe = std::env::current_exe().unwrap();
+    let mut child = Command::new(exe)
+        .arg("sched-child")
+        .arg(&name)
+        .arg(s.to_string())
+        .arg(npks.iter().map(|x| x.to_string()).collect::<Vec<_>>().join(","))
+        .stdin(Stdio::piped())
+        .stdout(Stdio::piped())
+        .spawn()
+        .expect("spawn sched-child");
+    let stdin = child.stdin.take().unwrap();
+    let stdout = BufReader::new(child.stdout.take().unwrap());
+    let (_r, btx) = server.accept().expect("accept");
+    btx.send(tx).unwrap();
+    drop(btx);
+    ProcActor {
+        child,
+        stdin,
+        stdout,
+        parked: None,
+        finished: false,
     }
 }
 
@@ -539,8 +566,8 @@ fn run_case(case: &Value, gates: &Gates) -> Value {
                 let mut guard = 0;
                 loop {
                     let lg = last_gen.get(&a).copied().unwrap_or(0);
-                    match gates.wait_settled(a, lg, 3000) {
-                        None => {
+                    match gates.wait_quiescent(a, lg, 3000) {
+                        None | Some(St::Running) => {
                             matched = false;
                             why = format!("step {}: actor {} is blocked in the kernel before '{}'", n, a, k);
                             break 'sched;
@@ -570,7 +597,6 @@ fn run_case(case: &Value, gates: &Gates) -> Value {
                                 break 'sched;
                             }
                         },
-                        Some(St::Running) => {},
                     }
                 }
             },
@@ -604,9 +630,8 @@ fn run_case(case: &Value, gates: &Gates) -> Value {
                 }
             },
             Actor::Proc(mut p) => {
-                if !p.finished {
-                    let _ = p.child.wait();
-                }
+                // reap it in every case (also when it had reported being finished)
+                let _ = p.child.wait();
             },
         }
     }
